@@ -304,7 +304,7 @@ func init() {
 			"the keys of JSON literals are changed concretely (two spellings), not symbolically: json.Unmarshal is native",
 		}}
 		p.Quick = []HRun{
-			{Entry: "HarnessC08Case", Bound: "43 name occurrences (definitions and uses of inputs, secrets, outputs, job/step ids, matrix keys, env keys, contexts, properties, ['literal'] indices, functions, action inputs, fromJSON accessors) x all 2^n letter-case spellings each", Require: []string{"variant"}},
+			{Entry: "HarnessC08Case", Bound: "50 name occurrences (definitions and uses of inputs, secrets, outputs, job/step ids, matrix keys, env keys, contexts, properties, ['literal'] indices, functions, action inputs, fromJSON accessors) x all 2^n letter-case spellings each", Require: []string{"variant"}},
 			{Entry: "HarnessC08Keywords", Bound: "true/false/null in every spelling with an upper-case letter; string literal contents", Require: []string{"keyword-variant"}},
 		}
 		p.Thorough = p.Quick
